@@ -96,7 +96,7 @@ def main(ck):
     if nv == 0:
       ck.discard('nv=0')
       return
-    fl = gm.info['flags']
+    _, fl = gs.opt_info(lib, m)
     sp_on, da_on = 'spring' not in fl, 'damper' not in fl
     gr_on, ac_on = 'gravity' not in fl, 'actuation' not in fl
     d = lib.make_data(m)
@@ -105,7 +105,7 @@ def main(ck):
     S = kin.snap(m)
     q0, v0 = np.array(d.qpos), np.array(d.qvel)
     k = kin.fk(S, q0)
-    labels = list(gm.labels()) + gs.classify(lib, m) + ['flag:%s-off' % f for f in fl if fl[f] == 'disable']
+    labels = gs.brief(gm.labels(), ('spring:', 'damping:', 'gravcomp', 'tendon:')) + gs.classify(lib, m) + ['flag:%s-off' % f for f in fl if fl[f] == 'disable']
     g = S.gravity if gr_on else np.zeros(3)
 
     fs, fd, fg, ff, fp = (np.array(getattr(d, n)) for n in ('qfrc_spring', 'qfrc_damper', 'qfrc_gravcomp', 'qfrc_fluid', 'qfrc_passive'))
@@ -255,6 +255,8 @@ def main(ck):
   ck.extra['tolerances'] = dict(K_LAW=K_LAW, TOL_GRAD=TOL_GRAD, H_FD=H_FD)
   ck.extra.update(stats)
 
+
+replay = gs.make_replay(main)
 
 LEVEL = 'exploration'
 TECHNIQUE = ('property-based testing against numpy re-implementations of the documented spring/damper/gravity-compensation '
